@@ -297,6 +297,45 @@ def fam_redim(tier, rng):
 FAMILIES = [fam_arr, fam_rec, fam_fix, fam_redim]
 
 
+def fam_arity(tier, rng):
+    """an access with fewer or more subscripts than the array has dimensions denotes no element: error 9, nothing changes
+    (alone, and under ON ERROR RESUME NEXT with every element printed afterwards)"""
+    out = []
+    for shape in ([(1, 2), (1, 3)], [(0, 1), (-1, 1)], [(0, 1), (1, 2), (-1, 0)], [(1, 3)]):
+        cs = cells_of(shape)
+        for et in ("I", "$", "D", "U", "F"):
+            for nsub in range(1, len(shape) + 2):
+                if nsub == len(shape):
+                    continue
+                for rw in ("read", "write"):
+                    for mode in ("stop", "next"):
+                        b = B()
+                        main = [dim_stmt(b, "AR", et, shape)]
+                        for k, c in enumerate(cs):
+                            tgt = elem_ref("AR", et, c)
+                            main.append(b.let(fld(tgt, "A", "I") if et == "U" else tgt, value_for("I" if et == "U" else et, k + 1)))
+                        if mode == "next":
+                            main.append(b.onerror("next"))
+                        c = ([hi for lo, hi in shape] + [1])[:nsub]
+                        ref = elem_ref("AR", et, c)
+                        if et == "U":
+                            ref = fld(ref, "A", "I")
+                        main.append(b.print(lit("$", "a")))
+                        if rw == "read":
+                            main.append(b.let(var("X", "$" if et in ("$", "F") else "D"), ref))
+                        else:
+                            main.append(b.let(ref, value_for("I" if et == "U" else et, 77)))
+                        main.append(b.print(lit("$", "b"), var("X", "$" if et in ("$", "F") else "D")))
+                        for c in cs:
+                            r = elem_ref("AR", et, c)
+                            main.append(b.print(fld(r, "A", "I") if et == "U" else r, lit("$", "|")))
+                        out.append({"fam": "arity:%s/%dof%d/%s/%s" % (et, nsub, len(shape), rw, mode), "prog": prog(main, types=TYPES)})
+    return out
+
+
+FAMILIES.append(fam_arity)
+
+
 def cases(tier, seed):
     rng = random.Random(seed)
     out = []
